@@ -525,8 +525,12 @@ fn c14_routes(rep: &mut Report) {
     for c in &contents {
         // --- strings
         let lit = refmodel::RV::Str(c.clone()).show();
-        let mut roomy = String::with_capacity(200);
-        roomy.push_str(c);
+        // (a fresh buffer each time: cloning a String drops its spare capacity)
+        let roomy = || {
+            let mut r = String::with_capacity(200);
+            r.push_str(c);
+            r
+        };
         let mut pushed = json_syntax::String::new();
         for ch in c.chars() {
             pushed.push(ch);
@@ -537,7 +541,7 @@ fn c14_routes(rep: &mut Report) {
         let base = Value::from(c.as_str());
         let routes: Vec<(&str, Value)> = vec![
             ("From<&str>", base.clone()),
-            ("From<String> with spare capacity", Value::from(roomy.clone())),
+            ("From<String> with spare capacity", Value::from(roomy())),
             ("parse_str", Value::parse_str(&lit).unwrap().0),
             ("parse_slice", Value::parse_slice(lit.as_bytes()).unwrap().0),
             ("clone", base.clone().clone()),
@@ -560,7 +564,13 @@ fn c14_routes(rep: &mut Report) {
         };
         let nested: Vec<(&str, Value)> = vec![
             ("From<&str> key and value", wrap(&routes[0].1, c.as_str().into())),
-            ("roomy key and value", wrap(&routes[1].1, json_syntax::object::Key::from(roomy.clone()))),
+            ("roomy key and value", wrap(&routes[1].1, json_syntax::object::Key::from(roomy()))),
+            ("truncated long key", wrap(&routes[0].1, {
+                let mut k = json_syntax::object::Key::from(format!("{c}{}", "x".repeat(40)));
+                k.truncate(c.len());
+                k
+            })),
+            ("clone of the roomy-key object", wrap(&routes[1].1, json_syntax::object::Key::from(roomy())).clone()),
             ("pushed key, parsed value", wrap(&routes[2].1, pushed.clone())),
             ("grown key, cloned value", wrap(&routes[4].1, grown.clone())),
             ("parsed document", Value::parse_str(&format!("[{lit},{{{lit}:{lit}}}]")).unwrap().0),
